@@ -899,8 +899,9 @@ func (fs *MemFS) ReadFileRaw(name string) ([]byte, bool) {
 	return append([]byte(nil), ino.data...), true
 }
 
-// WriteFileRaw replaces the named file's content without logging (used by the
-// harness to fabricate legacy stores or damage snapshots).
+// WriteFileRaw replaces the named file's content, bypassing points and the
+// descriptor ledger (used by the harness to fabricate legacy stores or damage
+// snapshots).
 func (fs *MemFS) WriteFileRaw(name string, data []byte) {
 	fs.mu.Lock()
 	defer fs.mu.Unlock()
@@ -910,15 +911,26 @@ func (fs *MemFS) WriteFileRaw(name string, data []byte) {
 		fs.nextIno++
 		ino = &inode{id: fs.nextIno, path: p}
 		fs.names[p] = ino
+		fs.record(Mut{Kind: MCreate, Ino: ino.id, Path: p})
 	}
+	// logged like any other mutation, so that crash images rebuilt from the
+	// log contain what the harness itself did to the directory
+	fs.record(Mut{Kind: MTrunc, Ino: ino.id, Path: p, Size: 0})
 	ino.data = append([]byte(nil), data...)
+	if len(data) > 0 {
+		fs.record(Mut{Kind: MWrite, Ino: ino.id, Path: p, Off: 0, Data: append([]byte(nil), data...)})
+	}
 }
 
-// RemoveRaw unbinds a name without logging.
+// RemoveRaw unbinds a name, bypassing points.
 func (fs *MemFS) RemoveRaw(name string) {
 	fs.mu.Lock()
 	defer fs.mu.Unlock()
-	delete(fs.names, cleanPath(name))
+	p := cleanPath(name)
+	if _, ok := fs.names[p]; ok {
+		delete(fs.names, p)
+		fs.record(Mut{Kind: MRemove, Path: p})
+	}
 }
 
 // MkdirRaw creates a directory (and parents) without logging.
